@@ -7,8 +7,11 @@ import (
 )
 
 func main() {
+	if pipeline.ChildMain() {
+		return
+	}
 	emit.Main("C11", func(seed int64, tier, outDir string) (*emit.Summary, error) {
-		sum, err := pipeline.RunFor("C11")(seed, tier, outDir)
+		sum, err := pipeline.Supervised("C11")(seed, tier, outDir)
 		if err != nil {
 			return nil, err
 		}
